@@ -189,7 +189,15 @@ func runC11(s *core.Sim, tier string) RunInfo {
 	// collectors for the subscriptions
 	var cmu sync.Mutex
 	gotB, gotC := map[string]*H{}, map[string]*H{}
+	var collectorPanic any
 	collect := func(sub header.Subscription[*H], into map[string]*H) {
+		defer func() {
+			if r := recover(); r != nil {
+				cmu.Lock()
+				collectorPanic = r
+				cmu.Unlock()
+			}
+		}()
 		for {
 			h, err := sub.NextHeader(ctx)
 			if err != nil {
@@ -352,6 +360,30 @@ func runC11(s *core.Sim, tier string) RunInfo {
 			}
 			s.Probe("rejected")
 		}
+	}
+	// shutting down: the Subscriber is stopped while a consumer still waits in NextHeader (it is
+	// the consumer's own goroutine), and the network keeps talking. Whatever arrives now - it is
+	// no longer validated by anybody - must not reach the consumer as a header, nor crash it.
+	if !s.Failed() && s.Tape.Coin("stop-with-open-subscription", 1, 3) {
+		s.Do("subscriber-stop", time.Minute, func() { _ = subB.Stop(ctx) })
+		late := garbage(s, 12)
+		lateValid := s.Tape.Coin("late-is-header", 1, 2)
+		if lateValid {
+			// (a valid header the verifier accepts may still be delivered - validated - as long
+			// as the Subscription is open; it is the unvalidated delivery that must not happen)
+			late, _ = w.Ch.At(uint64(100 + s.Tape.Draw("late-h", 50))).MarshalBinary()
+		}
+		s.Do("publish-after-stop", time.Minute, func() { _ = topicA.Publish(ctx, late) })
+		s.Quiesce(1500 * time.Millisecond)
+		cmu.Lock()
+		cp, atB := collectorPanic, gotB[msgKey(late)]
+		cmu.Unlock()
+		if cp != nil {
+			s.Violate("consumer-crash-after-stop", nil, "a message arriving after Subscriber.Stop made NextHeader panic in the consumer's goroutine: %v", cp)
+		} else if atB != nil && !lateValid {
+			s.Violate("unvalidated-message-delivered", map[string]string{"after": "stop"}, "a message arriving after Subscriber.Stop reached the open Subscription as a header without validation: %v", atB)
+		}
+		s.Probe("message-after-stop-with-open-subscription")
 	}
 	var descs []string
 	for _, m := range sent {
